@@ -368,7 +368,7 @@ theorem family_date (is : List Item) (Y : Int) (o : Nat) (hvd : VD Y o) (text : 
   obtain ⟨hEy, _, _, _, _⟩ := hE
   simp only [exprYears, shown, onSome, onOk, hw, fy, hwy] at hEy
   obtain ⟨hY, hI⟩ := hEy
-  obtain ⟨_, hsep, hg1, hg2, hfull, hnots⟩ := hU
+  obtain ⟨_, ⟨hsep, _⟩, hg1, hg2, hfull, hnots⟩ := hU
   obtain ⟨hexp, hx, hy⟩ := side_conditions c tr hc is hY hI
     (fun it _ => by cases itemFracDigits it <;> simp [onSome, cutFrac_zero, tr])
   obtain ⟨p', hparse, hS, hT⟩ := fields_of_format c hcok tr hc hok is text hp hexp hx hsep hsafe hy hfmt
@@ -440,7 +440,7 @@ theorem family_time (is : List Item) (t : Time) (htv : TValid t) (text : List Na
   have hwdn : ((Weekday.thu.toNat : Nat) : Int) = weekdayOf (dayNumYo 1970 ((1 : Nat) : Int)) := by decide
   have hiy : IsoWeek.year 2017306 = 1970 := by decide
   have hiw : IsoWeek.week 2017306 = 1 := by decide
-  obtain ⟨_, hsep, hg1, hg2, hfull⟩ := hU
+  obtain ⟨_, ⟨hsep, _⟩, hg1, hg2, hfull⟩ := hU
   obtain ⟨_, hEl, _, _, hEf⟩ := hE
   simp only [exprLeap, shown, onSome] at hEl
   simp only [exprFrac, shown, onSome] at hEf
@@ -540,7 +540,7 @@ theorem family_naive (is : List Item) (Y : Int) (o : Nat) (hvd : VD Y o) (t : Ti
     ∃ p', Parse.parse Parsed.new text is = .ok p' ∧
       ParseFrom.resolve .naive p' = .ok (.ok (.naive ⟨dateOfYo Y o, truncTime is t⟩)) := by
   obtain ⟨fy, _⟩ := date_facts Y o hvd
-  obtain ⟨_, hsep, hg1, hg2, _⟩ := hU
+  obtain ⟨_, ⟨hsep, _⟩, hg1, hg2, _⟩ := hU
   obtain ⟨hEy, hEl, _, hEs, hEf⟩ := hE
   simp only [exprLeap, shown, onSome] at hEl
   simp only [exprFrac, shown, onSome] at hEf
@@ -594,7 +594,7 @@ theorem family_zoned (is : List Item) (z : Zoned) (Y : Int) (o : Nat) (hvd : VD 
     ∃ p', Parse.parse Parsed.new text is = .ok p' ∧
       ∀ v', truncate_to_precision is (.zoned z) = some v' → ParseFrom.resolve .zoned p' = .ok (.ok v') := by
   obtain ⟨fy, _⟩ := date_facts Y o hvd
-  obtain ⟨_, hsep, hg1, hg2, _⟩ := hU
+  obtain ⟨_, ⟨hsep, _⟩, hg1, hg2, _⟩ := hU
   obtain ⟨hEy, hEl, hEo, hEs, hEf⟩ := hE
   simp only [exprLeap, shown, hl, onSome] at hEl
   simp only [exprFrac, shown, hl, onSome] at hEf
